@@ -403,7 +403,8 @@ def run_case(run, tap, stream, index, rng):
                 east, north = sub.uniform(-5, 5, n_k) + 3 * k, sub.uniform(0, 4, n_k) - k
                 kw = [dict(spacing=0.5), dict(shape=(4, 7)), dict(spacing=(0.4, 0.9), adjust="region")][int(sub.integers(0, 3))]
                 jobs.append((lambda e, n, kw: lambda: vd.block_split((e, n), **kw))(east, north, kw))
-            results = _core.run_threads(jobs, rounds=int(3 if npts > 50000 else 12))
+            results = _core.run_threads(jobs, rounds=int(3 if npts > 50000 else 12), yield_probability=0.25 if index % 2 == 0 else 0.0, seed=index)
+            run.count("yields_injected", getattr(_core.run_threads, "yields_injected", 0) - run.counters.get("yields_injected", 0))
             for res, exc in results:
                 if isinstance(exc, TimeoutError):
                     run.note_inconclusive("threads: %r" % (exc,))
